@@ -595,6 +595,18 @@ func (s *solo) checkQuiescent(where string) {
 		for id := range st.ImportRefs {
 			ids[id] = 1
 		}
+		// a reference the application holds on an import keeps at least one
+		// wire reference alive: the import table must have the entry
+		for _, h := range s.w.LiveHandles() {
+			pe := s.handlePexp[h.ID]
+			if pe == nil || s.deadHandle[h.ID] {
+				continue
+			}
+			s.count("live_import_handles_checked", 1)
+			if st.ImportRefs[pe.id] == 0 {
+				s.violate("C07/release-while-held", fmt.Sprintf("import %d is gone from the import table although the application holds reference %q to it (%s)", pe.id, h.Label, where), s.log.Tail(40))
+			}
+		}
 		unbound := s.unboundLiveHandle()
 		for _, id := range sortedKeysU32(ids) {
 			want := 0
